@@ -26,6 +26,10 @@ typedef VATA::AutBase::StateDict StateDict;
 
 namespace {
 
+// C13's oracles judge in C13 runs only (a C20 run makes the same calls under the monitors alone)
+void c13_violation(const std::string& o, const std::string& si, const std::string& d) { if (armed("C13")) vsim::violation(o, si, d); }
+
+
 const char* const ENC[] = {"parse", "expl", "expl_fa", "bdd-bu", "bdd-td"};
 
 Desc from_lib(const VATA::Util::AutDescription& a) {
@@ -103,13 +107,13 @@ void op_roundtrip(const Step& s) {
 	VATA::Util::AutDescription a2 = parser.ParseString(text2);
 	api_end(); count(c_oracle_evals); count(c_file_roundtrips);
 	Desc g = from_lib(a);
-	if (!(g == D)) violation("C13.parse-equals-description", "tx_roundtrip:parse", "ParseString differs from the description:" + desc_diff(D, g));
+	if (!(g == D)) c13_violation("C13.parse-equals-description", "tx_roundtrip:parse", "ParseString differs from the description:" + desc_diff(D, g));
 	if (!(a2 == a) || !a.StrictlyEqual(a2)) {
 		Desc g2 = from_lib(a2);
-		if (!(g2 == g)) violation("C13.serialise-parse-roundtrip", "tx_roundtrip:serialise", "parse(serialise(d)) differs from d:" + desc_diff(g, g2));
-		else if (a.symbols != a2.symbols || a.states != a2.states || a.name != a2.name) violation("C13.serialise-parse-roundtrip", "tx_roundtrip:serialise-strict", "name, symbols or state list do not survive serialise/parse");
+		if (!(g2 == g)) c13_violation("C13.serialise-parse-roundtrip", "tx_roundtrip:serialise", "parse(serialise(d)) differs from d:" + desc_diff(g, g2));
+		// (name, Ops and States lines are not part of the claim: "gives back the same final states and rules")
 	}
-	Desc r2; if (!mdl::parse_timbuk_ref(text2, r2, &err) || !(r2 == D)) violation("C13.serialise-parse-roundtrip", "tx_roundtrip:serialise-ref", "the serialised text does not denote the description (reference reader): " + err + desc_diff(D, r2));
+	Desc r2; if (!mdl::parse_timbuk_ref(text2, r2, &err) || !(r2 == D)) c13_violation("C13.serialise-parse-roundtrip", "tx_roundtrip:serialise-ref", "the serialised text does not denote the description (reference reader): " + err + desc_diff(D, r2));
 	note_case(hash_str(text));
 	// the reader of the command-line tool: what it returns is what the file holds, whether or not the last line is terminated
 	if (!cli_dir().empty()) {
@@ -124,7 +128,7 @@ void op_roundtrip(const Step& s) {
 		if (back != t) {
 			bool ok = true; Desc gb;
 			try { VATA::Util::AutDescription ab = parser.ParseString(back); gb = from_lib(ab); } catch (const std::exception&) { ok = false; }
-			if (!ok || !(gb == D)) violation("C13.file-parse-equals-description", "tx_roundtrip:ReadFile", "the text Util::ReadFile returns for a file (" + std::to_string(back.size()) + " of " + std::to_string(t.size()) + " bytes) does not parse to the description in the file" + (ok ? ":" + desc_diff(D, gb) : " (rejected)"));
+			if (!ok || !(gb == D)) c13_violation("C13.file-parse-equals-description", "tx_roundtrip:ReadFile", "the text Util::ReadFile returns for a file (" + std::to_string(back.size()) + " of " + std::to_string(t.size()) + " bytes) does not parse to the description in the file" + (ok ? ":" + desc_diff(D, gb) : " (rejected)"));
 		}
 	}
 	// per encoding: load, dump with the same state names, compare rule for rule; then once more (dump/load of an automaton)
@@ -136,22 +140,22 @@ void op_roundtrip(const Step& s) {
 		api_begin(); api_site(site);
 		bool ok = load_dump(enc, text, d1, &e1);
 		api_end(); count(c_oracle_evals); count(c_file_roundtrips);
-		if (!ok) { violation("C13.load-accepts-valid-text", site, "a well-formed text was rejected: " + e1); continue; }
-		Desc g1; if (!mdl::parse_timbuk_ref(d1, g1, &err)) { violation("C13.dump-well-formed", site, "the dump is not well-formed Timbuk: " + err); continue; }
+		if (!ok) { c13_violation("C13.load-accepts-valid-text", site, "a well-formed text was rejected: " + e1); continue; }
+		Desc g1; if (!mdl::parse_timbuk_ref(d1, g1, &err)) { c13_violation("C13.dump-well-formed", site, "the dump is not well-formed Timbuk: " + err); continue; }
 		Desc want = D;
 		if (enc == 2) {
 			// the finite-automaton dump writes one start arrow per start state: compare start STATES, edges and finals
 			auto norm = [](Desc& x) { std::set<std::tuple<std::string, std::vector<std::string>, std::string>> t; for (auto& r : x.trans) t.insert(std::get<1>(r).empty() ? std::make_tuple(std::string("x"), std::get<1>(r), std::get<2>(r)) : r); x.trans = t; };
 			norm(want); norm(g1);
 		}
-		if (!(g1 == want)) { violation("C13.dump-load-roundtrip", site, "load + dump does not give back the rules and final states under the same names:" + desc_diff(want, g1)); continue; }
+		if (!(g1 == want)) { c13_violation("C13.dump-load-roundtrip", site, "load + dump does not give back the rules and final states under the same names:" + desc_diff(want, g1)); continue; }
 		api_begin(); api_site(site + ":again");
 		bool ok2 = load_dump(enc, d1, d2, &e1);
 		api_end(); count(c_file_roundtrips);
-		if (!ok2) { violation("C13.load-accepts-valid-text", site + ":again", "the library rejected its own dump: " + e1); continue; }
-		Desc g2; if (!mdl::parse_timbuk_ref(d2, g2, &err)) { violation("C13.dump-well-formed", site + ":again", "the second dump is not well-formed: " + err); continue; }
+		if (!ok2) { c13_violation("C13.load-accepts-valid-text", site + ":again", "the library rejected its own dump: " + e1); continue; }
+		Desc g2; if (!mdl::parse_timbuk_ref(d2, g2, &err)) { c13_violation("C13.dump-well-formed", site + ":again", "the second dump is not well-formed: " + err); continue; }
 		if (enc == 2) { auto norm = [](Desc& x) { std::set<std::tuple<std::string, std::vector<std::string>, std::string>> t; for (auto& r : x.trans) t.insert(std::get<1>(r).empty() ? std::make_tuple(std::string("x"), std::get<1>(r), std::get<2>(r)) : r); x.trans = t; }; norm(g2); }
-		if (!(g2 == g1)) violation("C13.dump-load-roundtrip", site + ":again", "dump, load, dump is not a fix-point:" + desc_diff(g1, g2));
+		if (!(g2 == g1)) c13_violation("C13.dump-load-roundtrip", site + ":again", "dump, load, dump is not a fix-point:" + desc_diff(g1, g2));
 	}
 }
 
@@ -207,7 +211,7 @@ bool judge_faulted(const std::string& site, int enc, const std::string& t) {
 	api_begin(); api_site(site);
 	bool ok;
 	try { ok = load_dump(enc, t, d1, &e); }
-	catch (...) { api_end(); violation("C13.non-std-exception", site, "an exception that is not a std::exception escaped on a damaged text"); return true; }
+	catch (...) { api_end(); c13_violation("C13.non-std-exception", site, "an exception that is not a std::exception escaped on a damaged text"); return true; }
 	api_end(); count(c_oracle_evals);
 	if (!ok) { count(c_file_loads_rejected); return false; }
 	count(c_file_loads_ok);
@@ -216,20 +220,20 @@ bool judge_faulted(const std::string& site, int enc, const std::string& t) {
 	if (!mdl::parse_timbuk_ref(d1, g1, &err)) {
 		// a damaged text may carry names the format cannot express (e.g. a state called "->"): then the dump need not be re-readable, but must be rejected or read back consistently by the library itself
 		api_begin(); api_site(site + ":reload");
-		try { ok = load_dump(enc, d1, d2, &e); } catch (...) { api_end(); violation("C13.non-std-exception", site + ":reload", "non-std exception when re-loading a dump"); return true; }
+		try { ok = load_dump(enc, d1, d2, &e); } catch (...) { api_end(); c13_violation("C13.non-std-exception", site + ":reload", "non-std exception when re-loading a dump"); return true; }
 		api_end(); return true;
 	}
 	api_begin(); api_site(site + ":reload");
-	try { ok = load_dump(enc, d1, d2, &e); } catch (...) { api_end(); violation("C13.non-std-exception", site + ":reload", "non-std exception when re-loading a dump"); return true; }
+	try { ok = load_dump(enc, d1, d2, &e); } catch (...) { api_end(); c13_violation("C13.non-std-exception", site + ":reload", "non-std exception when re-loading a dump"); return true; }
 	api_end();
 	// The round-trip clause is stated for names without whitespace and reserved punctuation.  A damaged
 	// text can smuggle in a state called ":q8" or "q:", which the States line of the format cannot
 	// express; the fix-point is demanded only when every name of the loaded automaton is expressible.
 	if (!legal_names(g1)) return true;
-	if (!ok) { violation("C13.fixpoint-after-damaged-load", site, "a damaged text was accepted, but the dump of the loaded automaton is rejected: " + e + "\n  text: " + escape(t.substr(0, 300))); return true; }
+	if (!ok) { c13_violation("C13.fixpoint-after-damaged-load", site, "a damaged text was accepted, but the dump of the loaded automaton is rejected: " + e + "\n  text: " + escape(t.substr(0, 300))); return true; }
 	if (!mdl::parse_timbuk_ref(d2, g2, &err)) return true;
 	if (enc == 2) { auto norm = [](Desc& x) { std::set<std::tuple<std::string, std::vector<std::string>, std::string>> tt; for (auto& r : x.trans) tt.insert(std::get<1>(r).empty() ? std::make_tuple(std::string("x"), std::get<1>(r), std::get<2>(r)) : r); x.trans = tt; }; norm(g1); norm(g2); }
-	if (!(g1 == g2)) violation("C13.fixpoint-after-damaged-load", site, "a damaged text was accepted, but dump / load / dump is not a fix-point:" + desc_diff(g1, g2) + "\n  text: " + escape(t.substr(0, 300)));
+	if (!(g1 == g2)) c13_violation("C13.fixpoint-after-damaged-load", site, "a damaged text was accepted, but dump / load / dump is not a fix-point:" + desc_diff(g1, g2) + "\n  text: " + escape(t.substr(0, 300)));
 	return true;
 }
 
@@ -270,8 +274,8 @@ void op_reload(const Step& s) {
 	api_begin(); api_site(site);
 	bool ok = load_dump(enc, b.bytes, d1, &e);
 	api_end(); count(c_oracle_evals); count(c_client_restarts);
-	if (!ok) { violation("C13.reload-of-completed-dump", site, "the library rejected a text it dumped itself: " + e); return; }
-	Desc g; std::string err; if (!mdl::parse_timbuk_ref(d1, g, &err)) { violation("C13.dump-well-formed", site, err); return; }
+	if (!ok) { c13_violation("C13.reload-of-completed-dump", site, "the library rejected a text it dumped itself: " + e); return; }
+	Desc g; std::string err; if (!mdl::parse_timbuk_ref(d1, g, &err)) { c13_violation("C13.dump-well-formed", site, err); return; }
 	if (enc == 2 && b.has_starts) {
 		// the reloaded automaton must report the start states the dumped one reported, under the same names
 		VATA::Parsing::TimbukParser parser; VATA::AutBase::StateDict dict; VATA::ExplicitFiniteAut a; std::set<std::string> now;
@@ -279,10 +283,10 @@ void op_reload(const Step& s) {
 		a.LoadFromString(parser, b.bytes, dict);
 		for (const auto& q : a.GetStartStates()) now.insert(dict.TranslateBwd(q));
 		api_end(); count(c_oracle_evals);
-		if (now != b.api_starts) { std::string x, y; for (auto& q : b.api_starts) x += " " + q; for (auto& q : now) y += " " + q; violation("C13.reload-of-completed-dump", site, "the dumped automaton had the start states {" + x + " }, the reloaded one has {" + y + " }\n  text: " + b.bytes); }
+		if (now != b.api_starts) { std::string x, y; for (auto& q : b.api_starts) x += " " + q; for (auto& q : now) y += " " + q; c13_violation("C13.reload-of-completed-dump", site, "the dumped automaton had the start states {" + x + " }, the reloaded one has {" + y + " }\n  text: " + b.bytes); }
 	}
-	if (enc == 2) { mdl::FA got, want = mdl::fa_from_lit(b.model_lit); if (!mdl::desc_to_fa(g, "", got) || !(got.edges == want.edges && got.finals == want.finals && got.starts == want.starts)) violation("C13.reload-of-completed-dump", site, "reloading a completed dump does not give the automaton that was dumped\n  dumped: " + b.model_lit + "\n  got   : " + mdl::to_lit(got)); }
-	else { mdl::TA got, want = mdl::from_lit(b.model_lit); if (!mdl::desc_to_ta(g, "", got) || got != want) violation("C13.reload-of-completed-dump", site, "reloading a completed dump does not give the automaton that was dumped\n  dumped: " + b.model_lit + "\n  got   : " + mdl::to_lit(got)); }
+	if (enc == 2) { mdl::FA got, want = mdl::fa_from_lit(b.model_lit); if (!mdl::desc_to_fa(g, "", got) || !(got.edges == want.edges && got.finals == want.finals && got.starts == want.starts)) c13_violation("C13.reload-of-completed-dump", site, "reloading a completed dump does not give the automaton that was dumped\n  dumped: " + b.model_lit + "\n  got   : " + mdl::to_lit(got)); }
+	else { mdl::TA got, want = mdl::from_lit(b.model_lit); if (!mdl::desc_to_ta(g, "", got) || got != want) c13_violation("C13.reload-of-completed-dump", site, "reloading a completed dump does not give the automaton that was dumped\n  dumped: " + b.model_lit + "\n  got   : " + mdl::to_lit(got)); }
 }
 
 // ----------------------------------------------------------------- generators
